@@ -539,3 +539,60 @@ def native_langs(c, rep, model, gen_files, scalars=True, casts=True):
     if mism:
         c.broken.append(("corr:langs-native", json.dumps(mism[:3])))
     return mism
+
+
+def native_search_untranslatable(c, rep, model):
+    """DESIGN §4 step 2 for sites whose snippet the translator could not translate (broken correspondence): for Rust, C
+    and C++ the snippet is still compiled and run natively, and compared with what Spec prescribes; a differing input
+    is a concrete failing input (VIOLATION with replay), otherwise the run ends `no-failing-input-found`."""
+    probs = [p for p in rep["problems"] if p["backend"] in ("rust", "c", "cpp") and p["problem_kind"] == "translator"
+             and "wty" in p and "probe" not in p and p.get("snippet")]
+    if not probs:
+        return
+    sup = native_support(rep)
+    searched, found = 0, 0
+    for lang in ("rust", "c", "cpp"):
+        cases = [dict(p, index=None, bindings=[], operands=p.get("operands") or []) for p in probs if p["backend"] == lang]
+        cases = [p for p in cases if p["pos"] == "flat" and p["operands"]]
+        if not cases:
+            continue
+        try:
+            if lang == "rust":
+                src, plan = gen_rust_program(c, rep, cases, sup["rust_rt"])
+                exe, err = compile_cached(c, "rust-search", src, lambda s_, e_: ["rustc", "--edition", "2021", "-O", "-C", "debug-assertions=off",
+                                                                                   "-C", "overflow-checks=off", "-A", "warnings", s_, "-o", e_])
+            else:
+                src, plan = gen_c_program(c, rep, lang, cases, sup["c_union_files"])
+                cc = ["gcc", "-std=gnu11", "-O1", "-w"] if lang == "c" else ["g++", "-std=c++20", "-O1", "-w"]
+                exe, err = compile_cached(c, lang + "-search", src, lambda s_, e_: cc + [s_, "-o", e_])
+        except Exception as ex:  # noqa
+            c.notes.append(f"native search for untranslatable {lang} sites could not be set up: {ex}")
+            continue
+        if exe is None:
+            c.notes.append(f"native search: untranslatable {lang} snippets do not compile natively either: {(err or '')[-300:]}")
+            continue
+        rc, out = sh([exe], timeout=300)
+        chunks, cur = {}, None
+        for l in out.split("\n"):
+            if l.startswith("case "):
+                cur = int(l.split()[1]); chunks[cur] = []
+            elif cur is not None and l:
+                chunks[cur].append(l)
+        for ci, (p, xs) in enumerate(plan):
+            got = chunks.get(ci, [])
+            reqs = [f"spec {lang} {p['wty']} {p['dir']} {p['pos']} {x:x}" for x in xs]
+            want = run_lines([model], reqs, timeout=120)
+            for x, g, w in zip(xs, got, want):
+                searched += 1
+                if w == "undefined" or g == "skip":
+                    continue
+                ok = w.startswith("ok:") and g.startswith("ok:") and int(w.split(":")[2], 16) == int(g[3:], 16)
+                if not ok:
+                    found += 1
+                    instr = p["list"].split("_", 1)[1]
+                    c.spec_violation(f"scalar:{lang}:{instr}:{p['pos']}:native:{fp(p['snippet'])}",
+                                     f"{lang} {instr} `{T.one_line(p['snippet'])}` (not translatable, run natively) is not the canonical ABI mapping",
+                                     {"site": p["key"], "snippet": p["snippet"], "input_hex": f"{x:x}", "native": g, "expected": w,
+                                      "translator_problem": p["problem"]})
+                    break
+    c.cov["native_search_for_untranslatable_sites"] = {"inputs_run": searched, "failing_inputs": found, "sites": len(probs)}
